@@ -694,6 +694,35 @@ fn binary_level(rep: &mut Report, rng: &mut Rng, work: &Path, thorough: bool) {
                 json!({"scenario": "x,y,z linked and synced; y,z replaced by a new file with two names; sy -H again", "flags": "-H -q -j1"}));
         }
         let _ = std::fs::remove_dir_all(&root);
+        // (1b) two groups of two regrouped CROSSWISE (seeded change C13c): {a1,b1} and {a2,b2} synced; then a1,a2 become one
+        //      new file with two names while b1, b2 keep their content as single names — the link counts of a1 / a2 are the
+        //      same before and after (2), only the partners changed; with several sizes so that the small in-place route and
+        //      the hooked temp-file route are both taken
+        for (tag, len, env) in [("small", 5usize, &[][..]), ("delta", 6000usize, &[("SY_VERIF_DELTA_THRESHOLD", "4096"), ("SY_VERIF_BLOCK_SIZE", "1024")][..])] {
+            let (root, src, dst) = mk("regroup-cross");
+            let body = |c: u8| -> Vec<u8> { vec![c; len] };
+            std::fs::write(src.join("a1"), body(b'1')).unwrap();
+            std::fs::hard_link(src.join("a1"), src.join("b1")).unwrap();
+            std::fs::write(src.join("a2"), body(b'2')).unwrap();
+            std::fs::hard_link(src.join("a2"), src.join("b2")).unwrap();
+            set_mtime(&src.join("a1"), 1_500_000_000); set_mtime(&src.join("a2"), 1_500_000_000);
+            let o1 = run_sy_env(&root, &src, &dst, &["-j", "1"], env, generous);
+            std::fs::remove_file(src.join("a1")).unwrap();
+            std::fs::remove_file(src.join("a2")).unwrap();
+            std::fs::write(src.join("a1"), body(b'N')).unwrap();
+            std::fs::hard_link(src.join("a1"), src.join("a2")).unwrap();
+            set_mtime(&src.join("a1"), 1_600_000_000);
+            let o2 = run_sy_env(&root, &src, &dst, &["-j", "1"], env, generous);
+            rep.case(format!("regroup-cross-{}", tag).as_bytes(), true);
+            rep.tag("bin:regroup-crosswise-equal-link-counts");
+            if o1.timed_out || o2.timed_out { rep.skipped.push("regroup-cross: no result within 90 s".into()); }
+            else {
+                judge_structure(rep, &src, &dst, "C13/link-structure-differs/after-crosswise-regrouping",
+                    "after two groups of two were regrouped crosswise in the source (equal link counts before and after) the destination's inode classes or contents differ from the source's: a name that kept its content received the new group's content through a destination inode it still shared",
+                    json!({"scenario": "{a1,b1},{a2,b2} linked and synced; a1,a2 replaced by one new file with two names; sy -H again", "route": tag, "flags": "-H -q -j1"}));
+            }
+            let _ = std::fs::remove_dir_all(&root);
+        }
         // (2) the same with a single-named y: the stale link is broken, x keeps its content (88af04c)
         let (root, src, dst) = mk("regroup-single");
         std::fs::write(src.join("x"), b"xx1\n").unwrap();
